@@ -63,7 +63,7 @@ func (c12) RequiredBuckets(tier string) []string {
 		"safety:kind|range", "safety:kind|prange", "safety:kind|point", "safety:kind|site", "safety:kind|join", "safety:kind|order", "safety:kind|complement",
 		"corpus:phiX174",
 	}
-	return append(out, "cli:repair", "cli:repair source feature", "cli:repair cut between features", "cli:repair value-less unlisted qualifier", "cli:repair cache-on")
+	return append(out, "cli:repair", "cli:repair source feature", "cli:repair cut between features", "cli:repair value-less unlisted qualifier", "cli:repair cache-on", "cli:repair stream ending in a record without features")
 }
 
 func c12Lbl(s string) gts.Props { return gts.Props{{"label", s}} }
@@ -1394,7 +1394,18 @@ func c12GenSafety(r *rand.Rand) []gts.Feature {
 		ch := c12Chain(r, L, 2, 0, true)
 		a := gts.Feature{Key: "gene", Loc: ch[0], Props: gts.Props{{"label", "t"}, {"note", "x y"}}}
 		b := gts.Feature{Key: "gene", Loc: ch[1], Props: gts.Props{{"label", "t"}, {"note", "x y"}}}
-		switch r.Intn(6) {
+		switch r.Intn(9) {
+		case 6, 7, 8:
+			// the same key and qualifiers but for the value of one qualifier a
+			// class key might leave out (two hypothetical proteins side by side).
+			name := []string{"translation", "product", "protein_id", "db_xref", "codon_start", "gene", "locus_tag"}[r.Intn(7)]
+			a.Key, b.Key = "CDS", "CDS"
+			a.Props = gts.Props{{"label", "t"}, {"product", "hypothetical protein"}, {name, "MKVAAL"}, {"note", "x y"}}
+			b.Props = gts.Props{{"label", "t"}, {"product", "hypothetical protein"}, {name, "MKVAAI"}, {"note", "x y"}}
+			if name == "product" {
+				a.Props = gts.Props{{"label", "t"}, {"product", "MKVAAL"}, {"note", "x y"}}
+				b.Props = gts.Props{{"label", "t"}, {"product", "MKVAAI"}, {"note", "x y"}}
+			}
 		case 0, 1:
 			b.Key = "CDS"
 		case 2, 3:
